@@ -1,3 +1,3 @@
-(* _client.py :: KeyCache._store_key :: ('if', 0) :  not existing or key.l1 > existing.l1 or (key.l1 == existing.l1 and key.l2 > existing.l2) *)
+(* _client.py :: KeyCache._store_key :: ('if_mentions', 'existing', 0) :  not existing or key.l1 > existing.l1 or (key.l1 == existing.l1 and key.l2 > existing.l2) *)
 Definition k_cache_store (existing : bool) (key_l1 : Z) (existing_l1 : Z) (key_l2 : Z) (existing_l2 : Z) : bool :=
   ((negb existing) || (key_l1 >? existing_l1) || ((key_l1 =? existing_l1) && (key_l2 >? existing_l2))).
